@@ -188,6 +188,7 @@ def run_case(chk, stream, case):
     m = {}
     try:
         if stream == "history":
+            diverged = False
             for i, step in enumerate(case["steps"]):
                 if step == "reopen":
                     close_store(store)
@@ -211,9 +212,9 @@ def run_case(chk, stream, case):
                 if res == "raised":
                     # python's sqlite3 leaves the implicit transaction open after the IntegrityError; so does the model
                     pass
-                if impl != model:
+                if impl != model and not diverged:
                     fails.append(corr("history:" + axo.OPS[step[0]][0], "step %d %s of %s: impl=%s model=%s" % (i, step, case["steps"], impl, model)))
-                    break
+                    diverged = True     # the real store runs on: the reopen checks against the abstract map decide whether this is a failing input
                 if res != want:
                     fails.append(oracle("C13:api-result", "step %d %s: store answered %s, specification says %s" % (i, step, res, want)))
                     break
